@@ -1090,7 +1090,16 @@ impl Vm {
     let mut current_module = self.current_fun.module();
 
     match current_module.export_symbol(name) {
-      Ok(_) => ExecutionSignal::Ok,
+      Ok(_) => {
+        // the module's class gained a field. It shadows a method of that
+        // name which a call site may have cached for the class
+        let class = current_module.class();
+        for cache in self.inline_cache.iter_mut() {
+          cache.forget_invoke_class(class);
+        }
+
+        ExecutionSignal::Ok
+      },
       Err(error) => self.runtime_error_from_str(self.builtin.errors.export, &error.to_string()),
     }
   }}
